@@ -603,6 +603,17 @@ static bool run_fmt(std::string const& fn, Toks& in, Out& impl, Out& ref)
                 return true;
             }
         }
+        if (fn == "hypotf") {
+            float x = launder(fromb<float>(in.unum()));
+            float y = launder(fromb<float>(in.unum()));
+            if (!(std::isfinite(x) && std::isfinite(y))) {
+                okf(impl, etl::hypotf(x, y));
+                okf(ref, std::hypot(x, y));
+            } else {
+                impl.tok("ok").tok("finite");
+            }
+            return true;
+        }
         if (fn == "lrintf" || fn == "llrintf") {
             float x = launder(fromb<float>(in.unum()));
             oki(impl, fn == "lrintf" ? etl::lrintf(x) : etl::llrintf(x));
@@ -775,6 +786,30 @@ static bool run80(std::string const& fn, Toks& in, Out& impl, Out& ref)
             oki(impl, l ? under_mode(md, etl_lrint_call<L>, x) : under_mode(md, etl_llrint_call<L>, x));
         }
         if (lrint_defined(md, x)) { oki(ref, l ? under_mode(md, ref_lrint_call<L>, x) : under_mode(md, ref_llrint_call<L>, x)); }
+        return true;
+    }
+    // ---- lerp and the special-value ladders of hypot for long double (same templates as float / double)
+    if (fn == "lerp") {
+        L a = from80(in);
+        L b = from80(in);
+        L t = from80(in);
+        ok80(impl, etl::lerp(a, b, t));
+        ok80(ref, std::lerp(a, b, t));
+        return true;
+    }
+    if (fn == "hypot" || fn == "hypotl" || fn == "hypot3") {
+        L x = from80(in);
+        L y = from80(in);
+        L z = fn == "hypot3" ? from80(in) : 0.0L;
+        bool special = !(std::isfinite(x) && std::isfinite(y) && std::isfinite(z));
+        L r = fn == "hypot3" ? etl::hypot(x, y, z) : (fn == "hypot" ? etl::hypot(x, y) : etl::hypotl(x, y));
+        if (special) {
+            ok80(impl, r);
+            auto cls = [](L v) -> L { return std::isfinite(v) ? 1.0L : v; };
+            ok80(ref, fn == "hypot3" ? std::hypot(std::hypot(cls(x), cls(y)), cls(z)) : std::hypot(x, y));
+        } else {
+            impl.tok("ok").tok("finite");
+        }
         return true;
     }
     // ---- the C-style suffixed overloads
